@@ -52,6 +52,15 @@ func genC01(r *Rng, tier string) *Plan {
 		if r.Bool() {
 			p.Validity = &ValSpec{Duration: "7y"}
 		}
+		if r.Bool() {
+			// subject rules every generated subject satisfies (all optional, others allowed)
+			for _, a := range []string{"C", "O", "OU", "CN"} {
+				if r.Chance(2, 3) {
+					p.Attrs = append(p.Attrs, AttrSpec{Attr: a, Optional: bp(true)})
+				}
+			}
+			p.AllowOther = bp(true)
+		}
 		g.Profs = append(g.Profs, p)
 		g.P.Ops = append([]Op{{ID: 9000, K: "put-prof", Prof: p}}, g.P.Ops...)
 		for _, e := range g.Ents {
